@@ -221,41 +221,6 @@ fn probes(rep: &mut Report) {
     }
 }
 
-/// AND/OR tree of comparisons between a column and a literal of its type (either operand order)
-/// and BETWEENs; literals mostly occur in the column, so equality boundaries are hit
-fn simple_tree(r: &mut Rng, t: &TableDef) -> E {
-    let cmp = [Op::Eq, Op::Ne, Op::Lt, Op::Le, Op::Gt, Op::Ge];
-    let ncols = t.schema.cols.len();
-    let mut leaf = |r: &mut Rng| -> E {
-        let col = r.below(ncols as u64) as usize;
-        let from_data = if t.rows.is_empty() { Lit::Null } else { t.rows[r.below(t.rows.len() as u64) as usize][col].clone() };
-        let lit = match (t.schema.cols[col].1, from_data) {
-            (Ty::Int, Lit::I(v)) if r.chance(4, 5) => Lit::I(v),
-            (Ty::Int, _) => Lit::I(r.range(-3, 6)),
-            (_, Lit::S(v)) if r.chance(4, 5) => Lit::S(v),
-            (_, _) => Lit::S(r.pick(&["a", "ab", "b", ""]).to_string()),
-        };
-        // a negative number is rendered `(-n)`, which the engine parses as a unary minus, not a
-        // literal, and then leaves the predicate-tree path: keep most literals non-negative
-        let lit = match lit {
-            Lit::I(v) if v < 0 && r.chance(4, 5) => Lit::I(-v),
-            other => other,
-        };
-        match r.below(5) {
-            0 | 1 => E::Bin(*r.pick(&cmp), Box::new(E::Col(col)), Box::new(E::Lit(lit))),
-            2 | 3 => E::Bin(*r.pick(&cmp), Box::new(E::Lit(lit)), Box::new(E::Col(col))),
-            _ => E::Between(Box::new(E::Col(col)), Box::new(E::Lit(lit.clone())), Box::new(E::Lit(lit)), r.chance(1, 4)),
-        }
-    };
-    let mut pred = leaf(r);
-    for k in 0..r.range(1, 3) {
-        let l = leaf(r);
-        let op = if k == 0 || r.chance(2, 3) { Op::Or } else { Op::And };
-        pred = if r.chance(1, 2) { E::Bin(op, Box::new(pred), Box::new(l)) } else { E::Bin(op, Box::new(l), Box::new(pred)) };
-    }
-    pred
-}
-
 fn main() {
     engine::silence_panics();
     let args = Args::parse("C01");
@@ -294,7 +259,7 @@ fn main() {
             // scan-level columnar predicate tree handles), literals taken from the data
             let sg = QGen { db: &db_def, subqueries: false, force_from: Some(From::Table(t)) };
             let mut core = sg.gen_core(&mut r, true);
-            core.where_ = Some(Pred::Ex(simple_tree(&mut r, &db_def.tables[t])));
+            core.where_ = Some(Pred::Ex(simple_pred_tree(&mut r, &db_def.tables[t])));
             q = Query::Core(core);
             rep.count("large_table_simple_predicate_tree");
             // the engine's scan-level predicate tree only recognises unqualified column references
